@@ -175,9 +175,188 @@ def run_shallow_water(ctx):
       c05_sw.compare(ctx, op, inp, impl, SWCfg.un_layer(o))
 
 
+
+# ----------------------------------------------------------------------------------------------
+# validation of the named laws (hypotheses of the theorems) on real grids
+
+
+def relmax(a, b=None):
+  a = np.asarray(a, dtype=float)
+  return float(np.abs(a if b is None else a - np.asarray(b, dtype=float)).max()) if a.size else 0.0
+
+
+def validate_operator_laws(ctx, grid, label):
+  """LinLaws, ConstLaws, FactoryLaws of DinoProofs/Lemmas/Balance*.lean on `grid` (random masked spectra)."""
+  import jax.numpy as jnp
+  from dinosaur import primitive_equations as pe
+  rng = ctx.rng
+  ms, ns = grid.modal_shape, grid.nodal_shape
+  mask = np.asarray(grid.mask, dtype=float)
+  J = jnp.asarray
+  x, y = rng.standard_normal(ms) * mask, rng.standard_normal(ms) * mask
+  zx, zy = rng.standard_normal(ns), rng.standard_normal(ns)
+  a, b = rng.standard_normal(2)
+  inp = dict(grid=label)
+  ops = dict(to_nodal=(grid.to_nodal, x, y), to_modal=(grid.to_modal, zx, zy), d_dlon=(grid.d_dlon, x, y),
+             cos_lat_d_dlat=(grid.cos_lat_d_dlat, x, y), sec_lat_d_dlat_cos2=(grid.sec_lat_d_dlat_cos2, x, y),
+             laplacian=(grid.laplacian, x, y), inverse_laplacian=(grid.inverse_laplacian, x, y),
+             clip=(grid.clip_wavenumbers, x, y))
+  with ctx.impl('law-validation-raised', inp):
+    for name, (f, u, v) in ops.items():
+      lhs = np.asarray(f(J(a * u + b * v)))
+      rhs = a * np.asarray(f(J(u))) + b * np.asarray(f(J(v)))
+      ctx.expect(relmax(lhs, rhs) <= 1e-11 * max(relmax(rhs), 1e-300), f'law:linear:{name}',
+                 f'{name} is not linear on {label}', inp)
+    one = np.zeros(ms)
+    one[0, 0] = pe._CONSTANT_NORMALIZATION_FACTOR
+    ctx.expect(relmax(grid.laplacian(J(one))) == 0, 'law:lap_one', 'laplacian(one) != 0', inp)
+    ctx.expect(relmax(grid.d_dlon(J(one))) <= 1e-14, 'law:dDlon_one', 'd_dlon(one) != 0', inp)
+    ctx.expect(relmax(grid.cos_lat_d_dlat(J(one))) <= 1e-14, 'law:cosLatDDlat_one', 'cos_lat_d_dlat(one) != 0', inp)
+    # `_CONSTANT_NORMALIZATION_FACTOR` is a 8-digit literal: to_nodal(one) = 1 to 2e-8
+    ctx.expect(relmax(grid.to_nodal(J(one)), 1.0) <= 1e-7, 'law:toNodal_one', 'to_nodal(one) != 1', inp)
+    ctx.expect(relmax(np.asarray(grid.to_modal(J(np.ones(ns)))), one) <= 1e-7 * one[0, 0], 'law:toModal_one',
+               'to_modal(1) != one', inp)
+    # FactoryLaws
+    x0 = x.copy()
+    x0[0, 0] = 0.0
+    ctx.expect(relmax(grid.laplacian(J(x0)), grid.laplacian(J(x))) == 0, 'law:lap_zeroMean',
+               'laplacian sees the (0,0) coefficient', inp)
+    ctx.expect(relmax(grid.laplacian(grid.inverse_laplacian(J(x0))), x0) <= 1e-13 * relmax(x0), 'law:lap_invlap',
+               'laplacian(inverse_laplacian(y)) != y on zero-mean y', inp)
+    sx = np.asarray(grid.sec_lat_d_dlat_cos2(J(x)))
+    ctx.expect(abs(sx[0, 0]) <= 1e-13 * relmax(sx), 'law:S_zeroMean',
+               'sec_lat_d_dlat_cos2 produces a (0,0) coefficient', inp)
+    cos = np.asarray(grid.cos_lat)
+    ctx.expect(relmax(cos * (1 / cos), 1.0) <= 1e-15 and relmax(np.asarray(grid.sec2_lat) * cos * cos, 1.0) <= 1e-14,
+               'law:tables', 'cos_lat / sec2_lat tables inconsistent', inp)
+  ctx.case(('laws', label), nontrivial=True)
+
+
+def validate_jet(ctx, grid, u_lat, pot_modal, inp):
+  """`ZonalJet` of BalanceSW.lean for the zonal wind `u_lat` (1-D over latitude) on `grid`."""
+  import jax.numpy as jnp
+  from dinosaur import spherical_harmonic as sh
+  J = jnp.asarray
+  ns = grid.nodal_shape
+  u = np.broadcast_to(np.asarray(u_lat)[None, :], ns)
+  cos = np.broadcast_to(np.asarray(grid.cos_lat), ns)
+  _, sin = grid.nodal_mesh
+  sin = np.broadcast_to(np.asarray(sin), ns)
+  S, T, Nd, clip = grid.sec_lat_d_dlat_cos2, grid.to_modal, grid.to_nodal, grid.clip_wavenumbers
+  U = T(J(u / cos))
+  zeta = -np.asarray(S(U))
+  sc = max(relmax(u), 1e-300)
+  curl = grid.curl_cos_lat((U, jnp.zeros_like(U)), clip=False)
+  uv = sh.get_cos_lat_vector(curl, jnp.zeros_like(curl), grid, clip=True)
+  ok = True
+  ok &= ctx.expect(relmax(Nd(uv[0]), u * cos) <= 1e-11 * sc, 'law:jet:helmholtz',
+                   'get_cos_lat_vector(curl_cos_lat(u)) != u cos(lat)', inp)
+  zs = max(relmax(zeta), 1e-300)
+  fields = dict(psi=grid.inverse_laplacian(J(zeta)), b1=T(J(u / cos) * Nd(J(zeta))), b2=T(J(u / cos * sin)),
+                g=T(J(u / cos) * Nd(clip(J(pot_modal)))))
+  for k, f in fields.items():
+    ok &= ctx.expect(relmax(grid.d_dlon(f)) <= 1e-12 * max(relmax(f), 1e-300), f'law:jet:zonal_{k}',
+                     f'd_dlon of the zonal field {k} is not zero', inp)
+  x1 = S(T(J(u / cos) * Nd(J(zeta))))
+  x2 = S(T(J(u / cos * sin)))
+  x3 = grid.laplacian(T(J(u * u / 2)))
+  for k, f in dict(vorticity=J(zeta), X1=x1, X2=x2, X3=x3).items():
+    ok &= ctx.expect(relmax(clip(f), f) <= 1e-12 * max(relmax(f), zs, 1e-300), f'law:jet:clip_{k}',
+                     f'clip_wavenumbers changes {k}: the jet is not resolved on this grid', inp)
+  return ok, np.asarray(x2), np.asarray(x3)
+
+
+# ----------------------------------------------------------------------------------------------
+# sentinel probes: shallow-water jets through the factories
+
+
+def probe_shallow_water(ctx):
+  import jax
+  import jax.numpy as jnp
+  from dinosaur import spherical_harmonic as sh, shallow_water as sw, shallow_water_states as sws
+  from dinosaur import coordinate_systems as cs, layer_coordinates as lc, scales
+  rng = ctx.rng
+  impls = [sh.RealSphericalHarmonics, sh.FastSphericalHarmonics]
+  unit_cases = [(1.0, 0.5, 'factory-units')] * 3 + [(2.0, 0.5, 'radius-2'), (1.0, 1.0, 'omega-1'),
+                                                   (6371.22, 7.292e-5 * 3600, 'km-hour'), (0.37, 0.81, 'other')]
+  ncase = ctx.n(14, 120)
+  for ci in range(ncase):
+    radius, omega, ulabel = unit_cases[ci % len(unit_cases)]
+    wn = int(rng.choice([15, 21] if ctx.quick else [15, 21, 31, 42]))
+    impl = impls[ci % 2]
+    spacing = 'gauss' if ci % 5 else 'equiangular'
+    grid = sh.Grid.with_wavenumbers(wn, latitude_spacing=spacing, radius=radius, spherical_harmonics_impl=impl,
+                                    dealiasing='cubic' if spacing == 'equiangular' else 'quadratic')
+    layers = [1, 2, 3, 1, 4][ci % 5]
+    dens = random_densities(rng, layers)
+    coefs = [jet_profile(rng, deg=(0 if ci == 0 else None)) for _ in range(layers)]
+    lat = np.arcsin(np.asarray(grid.nodal_axes[1]))
+    u = np.stack([jet(lat, c) for c in coefs])
+    refpot = rng.uniform(0.05, 2.0, layers)
+    inp = dict(grid=f'T{wn}-{spacing}-{impl.__name__}', radius=radius, angular_velocity=omega, layers=layers,
+               densities=dens.tolist(), jet_coefficients=[c.tolist() for c in coefs], ref_potential=refpot.tolist())
+    ctx.dist[f'sw-probe:{ulabel}:layers={layers}:{spacing}'] += 1
+    ctx.case(('sw-probe', ci, u.tobytes(), dens.tobytes()), nontrivial=relmax(u) > 0,
+             sample=inp if ci in (0, 3) else None)
+    with ctx.impl('sw-probe-raised', inp):
+      coords = cs.CoordinateSystem(grid, lc.LayerCoordinates(layers))
+      specs = sw.ShallowWaterSpecs(dens, radius, omega, 1.0, scales.DEFAULT_SCALE)
+      eq = sw.ShallowWaterEquations(coords, specs, None, refpot)
+      st = sws.multi_layer(jnp.asarray(u), dens, coords) if (layers > 1 or ci % 2) else \
+          jax.tree.map(lambda a: a[None], sws.one_layer(jnp.asarray(u[0]), grid))
+      tot = total_sw(eq, st)
+      one_pots = np.stack([np.asarray(sws.one_layer(jnp.asarray(u[k]), grid).potential) for k in range(layers)])
+      cond = float(np.linalg.cond(sw.get_density_ratios(dens.copy()) + np.eye(layers)))
+      s_div = max(relmax(grid.laplacian(jnp.asarray(one_pots))), 1e-300)
+      s_vor = max(relmax(st.vorticity), 1e-300)
+      s_pot = max(relmax(st.potential), 1e-300)
+      tol = 1e-11 * max(1.0, cond)
+      # hypotheses of T5.3 on this input (per layer)
+      pred = np.zeros_like(tot.divergence)
+      hyp_ok = True
+      for k in range(layers):
+        ok, x2, x3 = validate_jet(ctx, grid, u[k], np.asarray(st.potential[k]), dict(inp, layer=k))
+        hyp_ok &= ok
+        pred[k] = (1 - radius ** 2) * x3 + (1 - 2 * omega) * x2
+      # always: zero vorticity / potential tendency, and the divergence tendency is the predicted residual
+      ctx.expect(relmax(tot.vorticity) <= tol * s_vor * s_vor * max(1, radius) and
+                 relmax(tot.potential) <= tol * s_pot * s_vor * max(1, radius), 'sw-zonal-vort-pot',
+                 'vorticity / potential tendency of a zonal factory state is not zero', inp)
+      ctx.expect(relmax(tot.divergence, pred) <= tol * max(s_div, relmax(pred)), 'sw-residual-formula',
+                 'divergence tendency differs from (1-r^2) lap(u^2/2) + (1-2 Omega) S(u tan(lat)) (theorem '
+                 'one_layer_total)', inp)
+      steady = relmax(tot.divergence) <= tol * s_div
+      if ulabel == 'factory-units':
+        ctx.expect(steady, 'sw-jet-steady', f'factory state not steady in its own units: '
+                   f'residual {relmax(tot.divergence) / s_div:.2e} of |lap Phi|', inp)
+      else:
+        # the known finding: the factories ignore grid.radius and the angular velocity
+        ctx.expect(steady, FINDING_KEY, f'one_layer/multi_layer state under radius={radius}, Omega={omega}: '
+                   f'residual {relmax(tot.divergence) / s_div:.2e} of |lap Phi|', inp)
+  # replay of the Lean negative witnesses on the real code: u = cos(lat)
+  for radius, omega, expect_nodal, name in [(2.0, 0.5, lambda s: 0.75 * (1 - 3 * s * s), 'radius'),
+                                            (1.0, 1.0, lambda s: -(1 - 3 * s * s), 'omega')]:
+    grid = sh.Grid.with_wavenumbers(10, radius=radius)
+    lat = np.arcsin(np.asarray(grid.nodal_axes[1]))
+    inp = dict(witness=f'one_layer_not_steady_{name}', radius=radius, angular_velocity=omega)
+    with ctx.impl('sw-witness-raised', inp):
+      coords = cs.CoordinateSystem(grid, lc.LayerCoordinates(1))
+      eq = sw.ShallowWaterEquations(coords, sw.ShallowWaterSpecs(np.ones(1), radius, omega, 1.0, scales.DEFAULT_SCALE),
+                                    None, np.array([0.1]))
+      st = jax.tree.map(lambda a: a[None], sws.one_layer(jnp.asarray(np.cos(lat)), grid))
+      tot = total_sw(eq, st)
+      _, sin = grid.nodal_mesh
+      ctx.expect(relmax(grid.to_nodal(jnp.asarray(tot.divergence[0])), expect_nodal(np.asarray(sin))) <= 1e-12,
+                 'sw-witness-replay', f'Lean negative witness ({name}) does not reproduce on the real code', inp)
+      ctx.case(('sw-witness', name), nontrivial=True)
+
 def run(ctx: common.Ctx):
   common.setup_jax()
+  ctx.lean('DinoProofs.Properties.C05', 'C05.txt',
+           extra_files=['DinoProofs/Lemmas/Balance.lean', 'DinoProofs/Lemmas/BalanceSW.lean', 'Dino/DynamicsSW.lean',
+                        'Dino/Dynamics.lean'])
   run_shallow_water(ctx)
+  probe_shallow_water(ctx)
   return ctx.finish(RULE, 'theorems are about the Lean models Dino.Dynamics / Dino.DynamicsSW; the horizontal '
                     'operators are abstract (laws are hypotheses, validated numerically on real grids each run); '
                     'agreement with the continuous equations on general low-degree states is an analytic-oracle test')
